@@ -40,12 +40,51 @@ CurBlock(p, f) == BlockAt(BodyOf(p, f.pi), Ent(f).path)
 
 Cx(p, M) == [p |-> p, fr |-> Top(M), store |-> M.store, arrs |-> M.arrs, pend |-> Top(M).pend, err |-> M.eh.err]
 
+\* next statement of the current block; the replay log is per statement
+Advance(M) == LET f == Top(M) en == Ent(f)
+              IN SetTop(M, [SetEnt(f, [en EXCEPT !.idx = en.idx + 1, !.lp = NoLp]) EXCEPT !.pend = <<>>])
+
+
+Push(M, en) == LET f == Top(M) IN SetTop(M, [f EXCEPT !.ctl = Append(f.ctl, en), !.pend = <<>>])
+Enter(M, slot, j) == LET en == Ent(Top(M))
+                     IN [Push(M, [path |-> Append(en.path, <<en.idx, slot, j>>), idx |-> 1, lp |-> NoLp]) EXCEPT !.ev = NoEv]
+SetLp(M, lp) == LET f == Top(M) IN SetTop(M, [SetEnt(f, [Ent(f) EXCEPT !.lp = lp]) EXCEPT !.pend = <<>>])
+
+
+\* what "the statement following the failed one" is (RESUME NEXT, ON ERROR RESUME NEXT): for a simple
+\* statement the next one of its block; for the opening line of a block the first statement INSIDE the
+\* block (the line after IF c THEN / ELSEIF c THEN / WHILE c / DO WHILE c is the first line of that body);
+\* for the closing line of a loop (LOOP UNTIL c, NEXT) the statement after the loop.  Resuming into a FOR
+\* whose bounds were never computed, or into a SELECT, is outside the model.
+SkipFailed(p, M) ==
+    LET f == Top(M)
+        en == Ent(f)
+        blk == CurBlock(p, f)
+    IN IF en.idx > Len(blk) THEN [Advance(M) EXCEPT !.ev = NoEv]
+       ELSE LET s == blk[en.idx] IN
+            CASE s.k = "if" ->
+                   LET ai == IF en.lp.k = "if" THEN en.lp.arm ELSE 1 IN
+                   IF ai > Len(s.arms) THEN [Advance(M) EXCEPT !.ev = NoEv]
+                   ELSE IF s.arms[ai].body = <<>> THEN [Advance(M) EXCEPT !.ev = NoEv]
+                   ELSE Enter(M, "arm", ai)
+              [] s.k = "while" ->
+                   IF s.body = <<>> THEN [SetLp(M, NoLp) EXCEPT !.ev = NoEv] ELSE Enter(SetLp(M, [k |-> "while"]), "body", 0)
+              [] s.k = "do" ->
+                   IF en.lp.k = "do" /\ en.lp.again /\ s.post # "" THEN [Advance(M) EXCEPT !.ev = NoEv]
+                   ELSE IF s.body = <<>> THEN [SetLp(M, [k |-> "do", again |-> TRUE]) EXCEPT !.ev = NoEv]
+                   ELSE Enter(SetLp(M, [k |-> "do", again |-> FALSE]), "body", 0)
+              [] s.k = "for" ->
+                   IF en.lp.k = "for" THEN [Advance(M) EXCEPT !.ev = NoEv]
+                   ELSE [M EXCEPT !.status = [k |-> "oom", kind |-> "resume-next-into-for", ln |-> 0], !.ev = NoEv]
+              [] s.k = "select" -> [M EXCEPT !.status = [k |-> "oom", kind |-> "resume-next-into-select", ln |-> 0], !.ev = NoEv]
+              [] OTHER -> [Advance(M) EXCEPT !.ev = NoEv]
+
 \* ---- run-time errors and ON ERROR (property C10) -----------------------------------------
 \* M.eh = [mode "off" | "goto" | "next", hidx (statement index of the handler label in the
 \* module body), active, err (kind of the last error), rp (control stack of the module-level
 \* code at the failed statement; <<>> when the error happened inside a procedure)]
 Fatal(M, kind, ln) == [M EXCEPT !.status = [k |-> "error", kind |-> kind, ln |-> ln], !.ev = NoEv]
-Fail(M, v, ln) ==
+Fail(p, M, v, ln) ==
     IF IsOOM(v) THEN [M EXCEPT !.status = [k |-> "oom", kind |-> "", ln |-> ln], !.ev = NoEv]
     ELSE IF M.eh.mode = "off" \/ M.eh.active THEN Fatal(M, v[2], ln)
     ELSE LET main == M.frames[1]
@@ -57,14 +96,8 @@ Fail(M, v, ln) ==
                         !.ev = NoEv]
             ELSE \* ON ERROR RESUME NEXT: the failed module-level statement is skipped
               IF inmain THEN
-                  LET en == main.ctl[Len(main.ctl)] IN
-                  [M EXCEPT !.frames = <<[main EXCEPT !.ctl[Len(main.ctl)] = [en EXCEPT !.idx = en.idx + 1, !.lp = [k |-> "none"]], !.pend = <<>>]>>,
-                            !.eh = [M.eh EXCEPT !.err = v[2]], !.ev = NoEv]
+                  SkipFailed(p, [M EXCEPT !.frames = <<[main EXCEPT !.pend = <<>>]>>, !.eh = [M.eh EXCEPT !.err = v[2]], !.ev = NoEv])
               ELSE [M EXCEPT !.status = [k |-> "oom", kind |-> "resume-next-in-procedure", ln |-> ln], !.ev = NoEv]
-
-\* next statement of the current block; the replay log is per statement
-Advance(M) == LET f == Top(M) en == Ent(f)
-              IN SetTop(M, [SetEnt(f, [en EXCEPT !.idx = en.idx + 1, !.lp = NoLp]) EXCEPT !.pend = <<>>])
 
 WriteLoc(M, loc, v) == [M EXCEPT !.store = [l \in DOMAIN M.store \cup {loc} |-> IF l = loc THEN v ELSE M.store[l]]]
 
@@ -90,7 +123,7 @@ EmptyEnv == [n \in {} |-> <<>>]
 Call(p, M, pi, args, ln) ==
     LET act == M.nact + 1
         b == Bind(p, M, p.procs[pi], args, act, EmptyEnv)
-    IN IF ~b.ok THEN Fail(M, b.bad, ln)
+    IN IF ~b.ok THEN Fail(p, M, b.bad, ln)
        ELSE IF Len(M.frames) >= 40 THEN [M EXCEPT !.status = [k |-> "oom", kind |-> "depth", ln |-> ln], !.ev = NoEv]
        ELSE [b.M EXCEPT !.nact = act, !.ev = NoEv,
                         !.frames = Append(b.M.frames,
@@ -113,13 +146,8 @@ Return(p, M) ==
 \* handles the three outcomes of an evaluation; Cont(value) is the continuation on a value
 OnEval(p, M, r, ln, cont(_)) ==
     CASE r[1] = "V" -> cont(r[2])
-      [] r[1] = "E" -> Fail(M, r[2], ln)
+      [] r[1] = "E" -> Fail(p, M, r[2], ln)
       [] r[1] = "N" -> Call(p, M, r[2].pi, r[2].args, ln)
-
-Push(M, en) == LET f == Top(M) IN SetTop(M, [f EXCEPT !.ctl = Append(f.ctl, en), !.pend = <<>>])
-Enter(M, slot, j) == LET en == Ent(Top(M))
-                     IN [Push(M, [path |-> Append(en.path, <<en.idx, slot, j>>), idx |-> 1, lp |-> NoLp]) EXCEPT !.ev = NoEv]
-SetLp(M, lp) == LET f == Top(M) IN SetTop(M, [SetEnt(f, [Ent(f) EXCEPT !.lp = lp]) EXCEPT !.pend = <<>>])
 
 LabelIdx(blk, n) == CHOOSE i \in 1..Len(blk) : blk[i].k = "label" /\ blk[i].n = n
 
@@ -185,7 +213,7 @@ ExecStmt(p, M, s) ==
              LET l == LocOf(s.lv, cx, r[3]) IN
              OnEval(p, M, l, ln, LAMBDA loc :
                LET cv == Conv(v, s.lv.t) IN
-               IF Bad(cv) THEN Fail(M, cv, ln) ELSE [Advance(WriteLoc(M, loc, cv)) EXCEPT !.ev = NoEv]))
+               IF Bad(cv) THEN Fail(p, M, cv, ln) ELSE [Advance(WriteLoc(M, loc, cv)) EXCEPT !.ev = NoEv]))
       [] s.k = "print" ->
            LET r == EvalList(ItemExprs(s.items), cx, 0, <<>>) IN
            OnEval(p, M, r, ln, LAMBDA vals :
@@ -194,7 +222,7 @@ ExecStmt(p, M, s) ==
            LET r == EvalList(s.args, cx, 0, <<>>) IN
            OnEval(p, M, r, ln, LAMBDA vals :
              LET cv == [i \in 1..Len(vals) |-> Conv(vals[i], s.ats[i])] IN
-             IF \E i \in 1..Len(cv) : Bad(cv[i]) THEN Fail(M, cv[CHOOSE i \in 1..Len(cv) : Bad(cv[i])], ln)
+             IF \E i \in 1..Len(cv) : Bad(cv[i]) THEN Fail(p, M, cv[CHOOSE i \in 1..Len(cv) : Bad(cv[i])], ln)
              ELSE [Advance(M) EXCEPT !.ev = [k |-> "dev", op |-> s.op, args |-> cv, ln |-> ln]])
       [] s.k = "if" ->
            \* en.lp remembers which arm is being tested
@@ -203,7 +231,7 @@ ExecStmt(p, M, s) ==
            ELSE LET r == Eval(s.arms[ai].c, cx, 0) IN
                 \* an ELSEIF is a statement of its own: errors are reported against its line
                 OnEval(p, M, r, s.arms[ai].ln, LAMBDA v :
-                  IF v[1] = "T" THEN Fail(M, Err("TYPE"), s.arms[ai].ln)
+                  IF v[1] = "T" THEN Fail(p, M, Err("TYPE"), s.arms[ai].ln)
                   ELSE IF Truth(v) THEN (IF s.arms[ai].body = <<>> THEN [Advance(M) EXCEPT !.ev = NoEv] ELSE Enter(M, "arm", ai))
                   ELSE [SetLp(M, [k |-> "if", arm |-> ai + 1]) EXCEPT !.ev = NoEv])
       [] s.k = "while" ->
@@ -235,10 +263,10 @@ ExecStmt(p, M, s) ==
                OnEval(p, M, l, s.nextln, LAMBDA loc :
                  LET cur == ReadLoc(cx, loc, s.v.t)
                      nx == Conv(BinOp("add", cur, en.lp.step), s.v.t)
-                 IN IF Bad(nx) THEN Fail(M, nx, s.nextln)
+                 IN IF Bad(nx) THEN Fail(p, M, nx, s.nextln)
                     ELSE LET t == ForTest(nx, en.lp.lim, en.lp.step)
                              M1 == WriteLoc(M, loc, nx)
-                         IN IF Bad(t) THEN Fail(M, t, ln)
+                         IN IF Bad(t) THEN Fail(p, M, t, ln)
                             ELSE IF t[2] # 0 THEN (IF s.body = <<>> THEN [M1 EXCEPT !.ev = NoEv] ELSE Enter(M1, "body", 0))
                             ELSE [Advance(M1) EXCEPT !.ev = NoEv])
            ELSE
@@ -246,12 +274,12 @@ ExecStmt(p, M, s) ==
                OnEval(p, M, r, ln, LAMBDA vs :
                  LET st == Conv(vs[1], s.v.t) lim == Conv(vs[2], s.v.t) stp == Conv(vs[3], s.v.t)
                      l == LocOf(s.v, cx, r[3])
-                 IN IF Bad(st) THEN Fail(M, st, ln) ELSE IF Bad(lim) THEN Fail(M, lim, ln)
-                    ELSE IF Bad(stp) THEN Fail(M, stp, ln)
+                 IN IF Bad(st) THEN Fail(p, M, st, ln) ELSE IF Bad(lim) THEN Fail(p, M, lim, ln)
+                    ELSE IF Bad(stp) THEN Fail(p, M, stp, ln)
                     ELSE OnEval(p, M, l, ln, LAMBDA loc :
                       LET M1 == SetLp(WriteLoc(M, loc, st), [k |-> "for", lim |-> lim, step |-> stp])
                           t == ForTest(st, lim, stp)
-                      IN IF Bad(t) THEN Fail(M, t, ln)
+                      IN IF Bad(t) THEN Fail(p, M, t, ln)
                          ELSE IF t[2] # 0 THEN (IF s.body = <<>> THEN [M1 EXCEPT !.ev = NoEv] ELSE Enter(M1, "body", 0))
                          ELSE [Advance(M1) EXCEPT !.ev = NoEv]))
       [] s.k = "select" ->
@@ -272,7 +300,7 @@ ExecStmt(p, M, s) ==
                                    !.pend = <<>>, !.gos = Append(f.gos, back)])
                  EXCEPT !.ev = NoEv]
       [] s.k = "return" ->
-           IF f.gos = <<>> THEN Fail(M, Err("RETURN_WITHOUT_GOSUB"), ln)
+           IF f.gos = <<>> THEN Fail(p, M, Err("RETURN_WITHOUT_GOSUB"), ln)
            ELSE [SetTop(M, [f EXCEPT !.ctl = f.gos[Len(f.gos)], !.pend = <<>>,
                                      !.gos = SubSeq(f.gos, 1, Len(f.gos) - 1)]) EXCEPT !.ev = NoEv]
       [] s.k = "callsub" ->
@@ -296,7 +324,7 @@ ExecStmt(p, M, s) ==
            ELSE IF M.eh.rp = <<>> THEN [M EXCEPT !.status = [k |-> "oom", kind |-> "resume-after-error-in-procedure", ln |-> ln], !.ev = NoEv]
            ELSE LET back == [f EXCEPT !.ctl = M.eh.rp, !.pend = <<>>]
                     M1 == [SetTop(M, back) EXCEPT !.eh = [M.eh EXCEPT !.active = FALSE], !.ev = NoEv]
-                IN IF s.next THEN [Advance(M1) EXCEPT !.ev = NoEv] ELSE M1
+                IN IF s.next THEN [SkipFailed(p, M1) EXCEPT !.ev = NoEv] ELSE M1
       [] s.k = "dim" ->
            \* one array per DIM statement in the AST
            LET es == LET RECURSIVE G(_) G(i) == IF i > Len(s.dims) THEN <<>> ELSE <<s.dims[i].lo, s.dims[i].hi>> \o G(i + 1) IN G(1)
@@ -306,8 +334,8 @@ ExecStmt(p, M, s) ==
                     pre == BasePrefix(cx, s.n)
                     bs == [i \in 1..Len(s.dims) |-> <<cv[2 * i - 1][2], cv[2 * i][2]>>]
                     key == <<pre[1], pre[2]>>
-                IN IF \E i \in 1..Len(cv) : Bad(cv[i]) THEN Fail(M, cv[CHOOSE i \in 1..Len(cv) : Bad(cv[i])], ln)
-                   ELSE IF \E i \in 1..Len(bs) : bs[i][1] > bs[i][2] THEN Fail(M, Err("SUBSCRIPT"), ln)
+                IN IF \E i \in 1..Len(cv) : Bad(cv[i]) THEN Fail(p, M, cv[CHOOSE i \in 1..Len(cv) : Bad(cv[i])], ln)
+                   ELSE IF \E i \in 1..Len(bs) : bs[i][1] > bs[i][2] THEN Fail(p, M, Err("SUBSCRIPT"), ln)
                    ELSE [Advance([M EXCEPT !.arrs = [a \in DOMAIN M.arrs \cup {key} |-> IF a = key THEN bs ELSE M.arrs[a]]])
                            EXCEPT !.ev = NoEv])
 
